@@ -237,6 +237,19 @@ fn body(c: &Case, ch: &Chooser) -> Outcome {
             }
         }
     }
+    // 3. truncated input ends the stream with an error: a body that stops inside a length prefix or
+    //    inside a payload (nothing injected, whatever the trailers say) must not look like a stream
+    //    that ended normally — the cut-off message would be lost without a trace.
+    if c.err_at.is_none() {
+        if let (_, ParseEnd::Truncated { frame_start }) = wire::parse_frames(&c.input, &[0, 1]) {
+            if !evs.iter().any(|e| matches!(e, Ev::Err(_))) {
+                o.violate(
+                    "truncated-input-accepted",
+                    format!("the body stops inside the frame that starts at offset {frame_start} ({} of its bytes present) but the stream ended without any error", c.input.len() - frame_start),
+                );
+            }
+        }
+    }
     let pae = stats.polls_after_end.load(std::sync::atomic::Ordering::Relaxed);
     if pae > 8 {
         o.violate("body-overpolled", format!("body polled {pae} times after it ended"));
